@@ -48,7 +48,8 @@ B_LIB = ("#[typeshare]\npub struct PLACEN { pub x: u32 }\n"
          "#[typeshare]\n#[serde(rename = \"Other\")]\npub struct Ren { pub y: u32 }\n"
          "#[typeshare]\npub struct Unused { pub z: u32 }\n"
          "#[typeshare]\npub struct Gen<T> { pub t: T }\n")
-C_LIB = "#[typeshare]\npub struct PLACEN { pub w: String }\n"
+C_LIB = ("#[typeshare]\npub struct PLACEN { pub w: String }\n"
+         "#[typeshare]\n#[serde(rename = \"OtherC\")]\npub struct Ren { pub yc: u32 }\n")
 A_OTHER = "#[typeshare]\npub struct Local { pub q: bool }\n"
 
 # form -> (use statement, how the type is spelled, expectation)
@@ -73,6 +74,8 @@ FORMS = {
     "serde-renamed": ("use b::Ren;", "Ren", ("import", "b", "Other")),
     "mapped": ("use b::Mapped;", "Mapped", ("none",)),
     "same-name-c": ("use c::PLACEN;", "PLACEN", ("import", "c", "N")),
+    "same-name-renamed-b": ("use b::Ren;", "Ren", ("import", "b", "Other")),
+    "same-name-renamed-c": ("use c::Ren;", "Ren", ("import", "c", "OtherC")),
     "same-name-b": ("use b::PLACEN;", "PLACEN", ("import", "b", "N")),
     "dash-crate": ("use d_e::PLACEN;", "PLACEN", ("import", "d_e", "N")),
 }
@@ -272,7 +275,7 @@ def case_imports(case):
                                               "imports": [(ev(m, ska.terms(s)), mo) for s, mo in imps]})
             # the name is really used by a's definitions (vacuity witness for the template)
             body = ska.text
-            if nm != "N" and nm not in body:
+            if nm != "N" and nm not in body and not res["violations"]:
                 raise Unsupported("vacuity: %s does not occur in crate a's module" % nm)
             # and not imported from any other module
             for span, module in imps:
@@ -293,6 +296,14 @@ def case_imports(case):
 
 
 # ---- partition -----------------------------------------------------------------------------------------------
+def declared(src):
+    """[(rust name, emitted name)] of the typeshared items of one source file (serde(rename) on the item honoured)"""
+    out = []
+    for m in re.finditer(r'(?:#\[serde\(rename = "(\w+)"\)\]\s*)?pub (?:struct|enum|type) (\w+)', src.replace("PLACEN", "Fx")):
+        out.append((m.group(2), m.group(1) or m.group(2)))
+    return out
+
+
 HEADER = re.compile(r"^(?:import |from .* import |package |\s*$|// |/\*|\*/| \*|@file|#|using )")
 
 
@@ -332,20 +343,18 @@ def case_partition(case):
             texts[c] = "".join(chr(x) for x in chars)
         # where is each type defined?  (names from the single-file run are the reference)
         stext = "".join(chr(x) for x in single[""][1])
-        want_home = {}
+        want_home = {}      # emitted name -> crates whose sources declare it
         for c, path, src in files:
-            for m in re.finditer(r"pub (?:struct|enum|type) (\w+)", src.replace("PLACEN", "Fx")):
-                want_home.setdefault(m.group(1), []).append(c)
+            for rust_name, out_nm in declared(src):
+                want_home.setdefault(out_nm, []).append(c)
         for c in crates:
             sk = Skel([ord(x) for x in texts[c]])
             names = [sk.str(s) for s in defined_of(sk)]
             for nm in names:
-                src_name = {"Other": "Ren"}.get(nm, nm)
-                homes = want_home.get(src_name)
+                homes = want_home.get(nm)
                 if homes is not None and c not in homes:
                     res["violations"].append({"kind": "type-in-wrong-module", "type": nm, "module": c, "want": homes})
-        for nm, homes in want_home.items():
-            out_nm = {"Ren": "Other"}.get(nm, nm)
+        for out_nm, homes in want_home.items():
             for c in homes:
                 sk = Skel([ord(x) for x in texts[c]])
                 if out_nm not in [sk.str(s) for s in defined_of(sk)]:
@@ -644,8 +653,8 @@ def native_partition(d, case, v):
     probs = []
     want_home = {}
     for c, path, src in files:
-        for m in re.finditer(r"pub (?:struct|enum|type) (\w+)", src.replace("PLACEN", "Fx")):
-            want_home.setdefault({"Ren": "Other"}.get(m.group(1), m.group(1)), []).append(c)
+        for rust_name, out_nm in declared(src):
+            want_home.setdefault(out_nm, []).append(c)
     for c in crates:
         sk = Skel([ord(x) for x in multi[out_name(lang, c)]])
         for nm in [sk.str(s) for s in DEFINED[lang](sk)]:
